@@ -241,6 +241,7 @@ func (s *Solver) Prove(goal *Term, vals []*Term) CheckResult {
 	if r == "unknown" || r == "error" {
 		// race the other solvers on the stand-alone script
 		for _, alt := range []struct{ name, bin string; args []string }{
+			{"z3-new/default-config", "z3-new", []string{"-smt2", "-in", fmt.Sprintf("-T:%d", (s.timeout+999)/1000)}},
 			{"z3-4.8.12", "/usr/bin/z3", []string{"-smt2", "-in", fmt.Sprintf("-T:%d", (s.timeout+999)/1000)}},
 			{"cvc5", "cvc5", []string{"--lang=smt2", fmt.Sprintf("--tlimit=%d", s.timeout)}},
 		} {
@@ -268,6 +269,7 @@ func (s *Solver) Prove(goal *Term, vals []*Term) CheckResult {
 var lastScript string
 
 func adaptScript(name, script string) string {
+	script = strings.Replace(script, "(set-option :smt.auto-config false)\n", "", 1)
 	if name == "cvc5" {
 		return "(set-logic ALL)\n" + script
 	}
